@@ -127,7 +127,7 @@ PROPS_EXTRA = {
     'C11': ['Props.GenFetcher'],
     'C12': ['Props.CodecFacts', 'Props.GenFetcher'],
     'C14': ['Props.GenHeads', 'Props.GenJoin', 'Props.GenJoinTail'],
-    'C15': ['Props.C13Facts', 'Props.GenTraverse'],
+    'C15': ['Props.C13Facts', 'Props.GenTraverse', 'Props.GenIterator'],
     'C16': ['Props.GenJoin', 'Props.GenJoinTail'],
     'C17': ['Props.EffectFacts', 'Props.GenFetcher'],
     'C18': ['Props.CodecFacts', 'Props.GenMisc'],
